@@ -62,7 +62,7 @@ class CallMixin:
                      "sorted", "next", "iter", "print", "type", "abs", "super", "callable", "object", "setattr", "float",
                      # spec-only
                      "old", "forall", "exists", "implies", "fresh", "allocated", "at_loop", "iff", "typeis", "seq_eq",
-                     "count", "distinct_seq", "ite", "subseteq", "same_elems", "box", "nonnull", "unchanged", "Seq", "some", "IntSeq", "countp"}
+                     "count", "distinct_seq", "ite", "subseteq", "same_elems", "box", "nonnull", "unchanged", "Seq", "some", "IntSeq", "countp", "prefixof", "suffixof", "strlen", "charat"}
 
     def _mod_consts(self, mod):
         c = self._consts_cache.get(mod)
@@ -95,9 +95,13 @@ class CallMixin:
         return VModule("ext:" + dotted)
 
     lib_models: dict = {}
+    lib_consts: dict = {}
+    lenient = False
 
     def module_attr(self, m: VModule, name, p):
         dotted = (m.name[4:] if m.name.startswith("ext:") else m.name) + "." + name
+        if dotted in self.lib_consts:
+            return self.lib_consts[dotted]
         if dotted in self.lib_models:
             return VFunc("lib", dotted, dotted)
         if m.name.startswith("ext:"):
@@ -115,6 +119,8 @@ class CallMixin:
         for cn, d in self.classes.items():
             if d.mod == mod and (cn == name or cn.endswith("." + name)):
                 return cn
+        if name in self.classes:
+            return name            # already declared by the schema (possibly as an opaque class): never re-declare
         # auto-declare a field-less class from the real source so methods resolve
         self.declare_class_from_source(mod, name)
         return name
@@ -160,6 +166,8 @@ class CallMixin:
         r = self.class_attr_extra(c, name, p)
         if r is not None:
             return r
+        if self.lenient:
+            return VOpaque(f"{c.name}.{name}")
         raise Unsupported(f"class attribute {c.name}.{name}")
 
     def class_attr_extra(self, c, name, p):
@@ -250,6 +258,8 @@ class CallMixin:
         if isinstance(f, VOpaque):
             return self.call_opaque(p, f, args, kwargs, node)
         if isinstance(f, VModule):
+            if self.lenient and f.name.startswith("ext:"):
+                return self.call_opaque(p, VOpaque(f.name[4:]), args, kwargs, node)
             raise Unsupported(f"call of module {f.name} at {w}")
         r = self.call_extra(p, f, args, kwargs, node)
         if r is not None:
@@ -264,6 +274,11 @@ class CallMixin:
         if f.what.startswith(("logger", "logging", "warnings")) or ".format" in f.what or f.what.startswith("exc:"):
             self.assumptions_used.add("logger.* / warnings.* calls have no effect on modelled state")
             return [(p, VOpaque("result of " + f.what))]
+        if self.lenient:
+            self.assumptions_used.add("lenient mode: calls into unmodelled libraries return arbitrary values, may raise, and have "
+                                      "no effect on the modelled fields (used only for dominance/effect obligations)")
+            q = p.copy()
+            return [(p, VOpaque("result of " + f.what)), (q, Exc("AnyException", f"L{getattr(node, 'lineno', '?')}:{f.what}"))]
         raise Unsupported(f"call on opaque value {f.what} at L{getattr(node, 'lineno', '?')}")
 
     # ---------------------------------------------------------------- inlining
@@ -614,6 +629,9 @@ class CallMixin:
         if kind not in ("list", "gen"):
             raise Unsupported(f"effectful {kind} comprehension")
         ety = (spec.elem if spec is not None and getattr(spec, "elem", None) is not None else None)
+        if ety is None and self.lenient:
+            q = p.copy()
+            return [(p, VOpaque("comprehension over unmodelled values")), (q, Exc("AnyException", f"L{node.lineno}:comprehension"))]
         if ety is None:
             raise Unsupported(f"comprehension at L{node.lineno} needs a loop spec with elem type (ordinal {ordinal})")
         acc_name = f"$acc{ordinal}"
